@@ -462,7 +462,11 @@ func stepUpdate(mask int) {
 	exp := verifU32("exp")
 	newBody := verifBytes("new")
 	verifAssume(newBody != nil)
-	mode := verifChoose("cb", 4)
+	mode := verifChoose("cb", 6)
+	cbExp := verifU32("cbExp") // an expiry of the callback's own (modes 4 and 5)
+	if mode == 5 {
+		verifAssume(k.pre.hasBody()) // expiry-only answer: keeps the current body
+	}
 	var shown []byte
 	calls := 0
 	cbErr := errors.New("callback refused")
@@ -476,6 +480,10 @@ func stepUpdate(mask int) {
 			return nil, nil, true, nil
 		case 2:
 			return nil, nil, false, nil
+		case 4:
+			return newBody, &cbExp, false, nil
+		case 5:
+			return nil, &cbExp, false, nil
 		}
 		return nil, nil, false, cbErr
 	})
@@ -496,7 +504,7 @@ func stepUpdate(mask int) {
 	}
 	if err != nil {
 		k.failed("refused")
-		if k.want(pC01) && mode == 0 {
+		if k.want(pC01) && (mode == 0 || mode == 4) {
 			var tooBig sgbucket.DocTooBigErr
 			verifAssert(errors.As(err, &tooBig), "an Update that writes a body succeeds (unless the body is too big)")
 		}
@@ -509,6 +517,10 @@ func stepUpdate(mask int) {
 	if mode == 0 {
 		verifReach("updated")
 		k.liveWith(post, newBody, true, exp, false)
+	} else if mode == 4 {
+		k.liveWith(post, newBody, true, cbExp, false) // the callback's expiry wins
+	} else if mode == 5 {
+		k.liveWith(post, k.pre.Value, true, cbExp, false) // same body, the callback's expiry
 	} else {
 		verifReach("deleted")
 		if k.want(pC01 | pC05) {
